@@ -39,7 +39,6 @@ CLAUSES = [
     ("cl_names", "name-not-validated"),
     ("cl_user_prefixes", "reserved-or-invalid-user-prefix"),
     ("cl_texts", "non-xml-char-not-rejected"),
-    ("cl_adjacent", "adjacent-data-misplaced"),
     ("cl_default_qname", "qname-value-default-ns-reset"),
     ("cl_late_qname", "late-qname-data-undeclared-prefix"),
     ("cl_clark", "datatype-clark-text-rewritten"),
@@ -127,7 +126,7 @@ class Gen:
                 self.elem(depth + 1, maxdepth, out)
                 prev_data = False
             else:
-                if prev_data and r.random() < (0.9 if self.hostile else 1.0):
+                if prev_data and r.random() < 0.6:
                     continue
                 out.append(["data", self.value()])
                 prev_data = True
@@ -272,9 +271,9 @@ WITNESSES = [
      {"user": [], "events": [["start", ["urn:a&b", "r"]], ["end", ["urn:a&b", "r"]]]}),
     ("qname-value-default-ns-reset",
      {"user": [[None, "urn:a"]], "events": [["start", [None, "r"]], ["attr", [None, "x"], {"q": ["urn:a", "v"]}], ["end", [None, "r"]]]}),
-    ("adjacent-data-misplaced",
+    ("fixed:adjacent-data-misplaced",
      {"user": [], "events": [["start", [None, "r"]], ["data", {"t": "a"}], ["data", {"t": "b"}], ["end", [None, "r"]]]}),
-    ("adjacent-data-misplaced",
+    ("fixed:adjacent-data-misplaced",
      {"user": [], "object": {"cls": "Mixed", "fields": {"content": ["a", "b"]}}}),
     ("late-qname-data-undeclared-prefix",
      {"user": [], "events": [["start", [None, "r"]], ["start", [None, "c"]], ["end", [None, "c"]], ["data", {"q": ["urn:b", "w"]}],
